@@ -26,20 +26,20 @@ pub struct RunResult {
 
 type Handle = Arc<Unimock>;
 
-fn take_slot(run: &RunCtx, slot: u8) -> Option<Handle> {
+pub fn take_slot(run: &RunCtx, slot: u8) -> Option<Handle> {
     run.slots[slot as usize].lock().unwrap().take()
 }
 
-fn get_slot(run: &RunCtx, slot: u8) -> Option<Handle> {
+pub fn get_slot(run: &RunCtx, slot: u8) -> Option<Handle> {
     run.slots[slot as usize].lock().unwrap().clone()
 }
 
-fn put_slot(run: &RunCtx, slot: u8, h: Handle) {
+pub fn put_slot(run: &RunCtx, slot: u8, h: Handle) {
     *run.slots[slot as usize].lock().unwrap() = Some(h);
 }
 
 /// take the instance out of the slot for exclusive use
-fn take_unique(run: &RunCtx, slot: u8) -> Result<Unimock, String> {
+pub fn take_unique(run: &RunCtx, slot: u8) -> Result<Unimock, String> {
     match take_slot(run, slot) {
         None => Err("slot empty".into()),
         Some(h) => match Arc::try_unwrap(h) {
@@ -60,7 +60,7 @@ fn panic_text(p: &(dyn std::any::Any + Send)) -> OpResult {
     }
 }
 
-fn begin_op(run: &RunCtx, tid: u8, idx: u16, fault: Option<Fault>, mock: u8) -> u64 {
+pub fn begin_op(run: &RunCtx, tid: u8, idx: u16, fault: Option<Fault>, mock: u8) -> u64 {
     with_tl(|t| {
         t.cur_op = (tid, idx);
         t.cur_fault = fault;
@@ -70,7 +70,7 @@ fn begin_op(run: &RunCtx, tid: u8, idx: u16, fault: Option<Fault>, mock: u8) -> 
     run.tick()
 }
 
-fn end_op(
+pub fn end_op(
     run: &RunCtx,
     tid: u8,
     idx: u16,
@@ -94,7 +94,7 @@ fn end_op(
     });
 }
 
-fn mock_of(run: &RunCtx, slot: u8) -> u8 {
+pub fn mock_of(run: &RunCtx, slot: u8) -> u8 {
     run.slot_mock[slot as usize].load(Ordering::SeqCst) as u8
 }
 
@@ -333,7 +333,7 @@ fn exec_op(
                 Err(Box::new(UserFault::Body))
             }
         }
-        Op::Lend { .. } | Op::Release { .. } => crate::lending::exec_op(run, tid, idx, op, locals),
+        Op::LendSession { .. } => crate::lending::exec_op(run, tid, idx, op),
         Op::Own { .. } => crate::owning::exec_op(run, tid, idx, op),
     }
 }
@@ -342,7 +342,7 @@ fn exec_op(
 /// refused while a handle clone exists), so dropping the clone never drops the `Unimock`; if the
 /// slot was emptied meanwhile by `Hold`, the clone may be the last handle: then the instance is
 /// parked back into the slot instead of being dropped here.
-fn release_handle(run: &RunCtx, slot: u8, h: Handle) {
+pub fn release_handle(run: &RunCtx, slot: u8, h: Handle) {
     if Arc::strong_count(&h) == 1 {
         let mut g = run.slots[slot as usize].lock().unwrap();
         if g.is_none() {
@@ -415,6 +415,7 @@ pub fn run(scn: &Scenario) -> RunResult {
         record_matchers: scn.knob("record_matchers").unwrap_or(0) != 0,
         slots: (0..N_SLOTS).map(|_| Mutex::new(None)).collect(),
         slot_mock: (0..N_SLOTS).map(|_| AtomicU64::new(0)).collect(),
+        tracker: crate::values::Tracker::new(),
     });
     let build_error: Arc<Mutex<Option<String>>> = Arc::new(Mutex::new(None));
     let prelude = scn.knob("prelude").unwrap_or(0).max(0) as usize;
@@ -429,7 +430,7 @@ pub fn run(scn: &Scenario) -> RunResult {
         let build_error = build_error.clone();
         let j = std::thread::Builder::new()
             .name(format!("sim-{tid}"))
-            .stack_size(1 << 20)
+            .stack_size((scn.knob("stack_kb").unwrap_or(1024) as usize) << 10)
             .spawn(move || {
                 TL.with(|tl| {
                     *tl.borrow_mut() = Some(ThreadCtx {
@@ -441,6 +442,7 @@ pub fn run(scn: &Scenario) -> RunResult {
                         cur_fault: None,
                         progs_in_op: 0,
                         cur_mock: 0,
+                        cur_val: 0,
                     })
                 });
                 run.sched.thread_start(tid);
@@ -496,7 +498,8 @@ pub fn run(scn: &Scenario) -> RunResult {
             }
         }
     }
-    let log = run.log(|l| std::mem::take(l));
+    let mut log = run.log(|l| std::mem::take(l));
+    log.track = run.tracker.take();
     let be = build_error.lock().unwrap().clone();
     RunResult {
         log,
